@@ -4,4 +4,6 @@
 #[cfg(kani)]
 mod serial;
 #[cfg(kani)]
+mod codecs;
+#[cfg(kani)]
 mod playback_gen;
